@@ -44,6 +44,13 @@ enum OpCode
   OP_SWEEP = 9   // [9,seed]        ALL bins of the current geometry in a pseudo-random order
 };
 
+inline bool
+no_exclude()
+{
+  static const bool v = std::getenv("VERIF_NO_EXCLUDE") != nullptr;
+  return v;
+}
+
 const double SCREEN = 1e-3; // voxel units, from the property text / DESIGN "Tie screen"
 
 // calibrated tolerance (see props.d/C03.py level_note and the final report): relative to the row maximum
@@ -285,7 +292,6 @@ struct Run
   int lors = 1;
   bool cyl = true;
   bool adb = false;
-  bool mask_view_s_sym = false; // see finding C03-F2 in check()
   shared_ptr<ProjMatrixByBinUsingRayTracing> m;
   std::map<RefKey, Ref> refs;
   std::vector<BinKey> requested; // all bins requested so far (for OP_REGET)
@@ -385,32 +391,17 @@ struct Run
       had_event = true;
   }
 
-  // KNOWN FINDING C03-F1 (work/notes/C03_findings.md): ProjMatrixByBinUsingRayTracing::set_up returns early when
-  // the object is already set up with an equal ProjDataInfo, voxel size and origin EVEN IF the image index range
-  // differs (the `return` sits outside the inner `if`), so the old index range keeps being used.
-  // Excluded narrowly by construction: such a set_up event is not executed (VERIF_NO_EXCLUDE=1 executes it).
-  bool known_resetup_defect(int gg, int ii) const
-  {
-    static const bool no_exclude = std::getenv("VERIF_NO_EXCLUDE") != nullptr;
-    if (no_exclude)
-      return false;
-    if (!(*geo[g].pdi == *geo[gg].pdi) || img[i]->get_voxel_size() != img[ii]->get_voxel_size() || img[i]->get_origin() != img[ii]->get_origin())
-      return false;
-    CartesianCoordinate3D<int> a0, a1, b0, b1;
-    img[i]->get_regular_range(a0, a1);
-    img[ii]->get_regular_range(b0, b1);
-    return a0 != b0 || a1 != b1;
-  }
-
   Result do_setup(int gg, int ii, const char* what)
   {
     std::string why;
-    if (known_resetup_defect(gg, ii))
-      {
-        stats().excluded_known++;
-        stats().count("excluded: set_up for an image that differs only in its index range (finding C03-F1)");
-        return Result::pass();
-      }
+    {
+      // (class of the fixed defect C03-F1, replays/C03/fixed_resetup_index_range.json: same data, voxel size and origin, other index range)
+      CartesianCoordinate3D<int> a0, a1, b0, b1;
+      img[i]->get_regular_range(a0, a1);
+      img[ii]->get_regular_range(b0, b1);
+      if (*geo[g].pdi == *geo[gg].pdi && img[i]->get_voxel_size() == img[ii]->get_voxel_size() && img[i]->get_origin() == img[ii]->get_origin() && (a0 != b0 || a1 != b1))
+        stats().count("set_up events for an image that differs only in its index range");
+    }
     if (!probe(gg, ii, why))
       {
         stats().count("set_up events skipped (fresh matrix rejects the combination)");
@@ -640,8 +631,6 @@ Run::run_op(const json& op, int)
     case OP_SYM:
       {
         const int k = int(((arg(1) % 5) + 5) % 5);
-        if (mask_view_s_sym && (k == 0 || k == 1 || k == 3))
-          return Result::pass(); // finding C03-F2
         sym[k] = !sym[k];
         std::string why;
         if (!probe(g, i, why))
@@ -736,18 +725,6 @@ check(const json& c)
   R.lors = c["lors"].get<int>();
   R.cyl = c["cyl_fov"].get<bool>();
   R.adb = c["adb"].get<bool>();
-  // KNOWN FINDING C03-F2 (work/notes/C03_findings.md): with use_actual_detector_boundaries the LOR of a bin is the
-  // line between the detector centres, which for odd tangential positions is rotated by half a view w.r.t. the
-  // interleaved sinogram coordinate; the view symmetries (90-phi, 180-phi) and swap_s mirror the sinogram
-  // coordinates and are left enabled, so derived rows belong to another LOR.  Excluded narrowly by construction:
-  // a history that requests use_actual_detector_boundaries keeps these three switches off (VERIF_NO_EXCLUDE=1 lifts this).
-  R.mask_view_s_sym = R.adb && std::getenv("VERIF_NO_EXCLUDE") == nullptr;
-  if (R.mask_view_s_sym && (R.sym[0] || R.sym[1] || R.sym[3]))
-    {
-      R.sym[0] = R.sym[1] = R.sym[3] = false;
-      stats().excluded_known++;
-      stats().count("excluded: view / swap_s symmetries switched off in a history with use_actual_detector_boundaries (finding C03-F2)");
-    }
   {
     std::string why;
     if (!R.probe(0, 0, why))
@@ -855,6 +832,12 @@ gen_config(Src& s, int size)
   c["lors"] = int(s.small(1, 4));
   c["cyl_fov"] = s.chance(3, 4);
   c["adb"] = s.chance(1, 8);
+  if (c["adb"].get<bool>() && !no_exclude())
+    { // known finding C03-F2 (see known_signature below): excluded by construction, the rest of the search goes on with the flag
+      c["sym"][0] = 0;
+      c["sym"][1] = 0;
+      c["sym"][3] = 0;
+    }
   return c;
 }
 
@@ -914,7 +897,10 @@ gen(Src& s, int size)
       else if (r < 89)
         {
           op.push_back(OP_SYM);
-          op.push_back(s.range(0, 4));
+          long k = s.range(0, 4);
+          if (c["adb"].get<bool>() && !no_exclude() && (k == 0 || k == 1 || k == 3))
+            k = s.coin() ? 2 : 4; // known finding C03-F2: by construction
+          op.push_back(k);
         }
       else if (r < 95)
         {
@@ -1056,6 +1042,38 @@ nontrivial(const json& c)
   return sym_on && gets;
 }
 
+// KNOWN FINDING C03-F2 (known/C03/actual_detector_boundaries_sym90.json, work/notes/C03_findings.md):
+// with use_actual_detector_boundaries the LOR of a bin is the line between the detector centres, which for odd
+// tangential positions is rotated by half a view w.r.t. the interleaved sinogram coordinate; the view symmetries
+// (90-phi, 180-phi) and swap_s mirror the sinogram coordinates and stay enabled, so derived rows belong to another LOR.
+// Signature = exactly that class: the flag is requested, it can become effective (one of the two data geometries is
+// non-arc-corrected, span 1, unmashed - set_up resets the flag otherwise) and one of the three switches is on at some
+// point of the history.  The generator avoids the class by construction; VERIF_NO_EXCLUDE=1 lifts both.
+std::string
+known_signature(const json& c)
+{
+  if (no_exclude() || !c.value("adb", false))
+    return "";
+  bool effective = false;
+  for (const char* g : { "A", "B" })
+    {
+      const json& p = c[std::string("pdi") + g];
+      const json& sc = c[std::string("sc") + g];
+      if (!p["arccorr"].get<bool>() && p["span"].get<int>() == 1 && sc.value("type", -1) < 0 && p["views"].get<int>() == sc["ndet"].get<int>() / 2)
+        effective = true;
+    }
+  if (!effective)
+    return "";
+  bool on = c["sym"][0].get<int>() != 0 || c["sym"][1].get<int>() != 0 || c["sym"][3].get<int>() != 0;
+  for (const json& op : c["ops"])
+    if (op.is_array() && op.size() >= 2 && op[0].get<int>() == OP_SYM)
+      {
+        const long k = ((op[1].get<long>() % 5) + 5) % 5;
+        on = on || k == 0 || k == 1 || k == 3;
+      }
+  return on ? "C03:actual-detector-boundaries:view-or-s-symmetry" : "";
+}
+
 } // namespace
 
 const Property&
@@ -1068,6 +1086,7 @@ the_property()
   p.nontrivial = nontrivial;
   p.enumerate = enumerate;
   p.shrink_lists = { "ops" };
+  p.known_signature = known_signature;
   p.rule = "history contains at least one request and at least one symmetry switch is on at some point";
   return p;
 }
